@@ -23,6 +23,16 @@ class CountingTable(object):
             yield tuple(r)
 
 
+class Plain(object):
+    """A view whose Conflict cells (frozensets) are rendered as sorted tuples; iterable any number of times."""
+    def __init__(self, view):
+        self.view = view
+
+    def __iter__(self):
+        for r in self.view:
+            yield tuple(('!conflict',) + tuple(sorted(x, key=repr)) if isinstance(x, frozenset) else x for x in r)
+
+
 def _outs(view):
     """One full pass, in the encoding of Dispatch.enc_out."""
     outs = []
@@ -49,6 +59,10 @@ def _ops():
     ops = {
         'sort': (1, lambda ts, key, kw: etl.sort(ts[0], key, **{k: v for k, v in kw.items() if k != 'presorted'})),
         'mergesort': (2, lambda ts, key, kw: etl.mergesort(ts[0], ts[1], key=key, **kw)),
+        'merge': (2, lambda ts, key, kw: Plain(etl.merge(ts[0], ts[1], key=key, **kw))),
+        'merge_reverse': (2, lambda ts, key, kw: Plain(etl.merge(ts[0], ts[1], key=key, reverse=True,
+                                                                 **{k: v for k, v in kw.items() if k != 'presorted'}))),
+        'mergeduplicates': (1, lambda ts, key, kw: Plain(etl.mergeduplicates(ts[0], key, **kw))),
         'duplicates': (1, lambda ts, key, kw: etl.duplicates(ts[0], key, **kw)),
         'unique': (1, lambda ts, key, kw: etl.unique(ts[0], key, **kw)),
         'distinct': (1, lambda ts, key, kw: etl.distinct(ts[0], key, **kw)),
@@ -73,7 +87,6 @@ def _ops():
         'groupselectlast': (1, lambda ts, key, kw: etl.groupselectlast(ts[0], key, **kw)),
         'groupselectmin': (1, lambda ts, key, kw: etl.groupselectmin(ts[0], key, 'v', **kw)),
         'groupselectmax': (1, lambda ts, key, kw: etl.groupselectmax(ts[0], key, 'v', **kw)),
-        'mergeduplicates': (1, lambda ts, key, kw: etl.mergeduplicates(ts[0], key, **kw)),
         'fold': (1, lambda ts, key, kw: etl.fold(ts[0], key, zoo.FOLD2[1], **kw)),
         'rowgroupmap': (1, lambda ts, key, kw: etl.rowgroupmap(ts[0], key, lambda k, rows: [[k, len(list(rows))]],
                                                                header=['k', 'n'], **kw)),
@@ -86,7 +99,7 @@ def _ops():
 
 KEYLESS = ('complement', 'intersection', 'recordcomplement', 'diff_added', 'diff_subtracted', 'pivot', 'unjoin_left',
            'unjoin_right')
-NO_PRESORTED = ('sort', 'recordcomplement', 'pivot', 'mergesort')
+NO_PRESORTED = ('sort', 'recordcomplement', 'pivot', 'mergesort', 'merge_reverse')
 
 
 class C11(Prop):
@@ -167,7 +180,8 @@ class C11(Prop):
                                                (r + ('extra',) if rng.random() < 0.2 else r) for r in t[1:]) for t in ts)
                 nmax = max(len(t) for t in ts)
                 key = None if name in KEYLESS else rng.choice(['k', 'k', ('k', 'a')])
-                if name in ('join', 'leftjoin', 'rightjoin', 'outerjoin', 'antijoin', 'lookupjoin', 'mergesort'):
+                if name in ('join', 'leftjoin', 'rightjoin', 'outerjoin', 'antijoin', 'lookupjoin', 'mergesort', 'merge',
+                            'merge_reverse'):
                     key = 'k'
                 strategies = []
                 for bs in rng.sample(range(1, nmax + 2), min(3, nmax + 1)):
